@@ -81,7 +81,7 @@ Definition rd (n : N) (bs : bytes) : res (bytes * bytes) :=
   if n =? 0 then Ok ([], bs)
   else match bs with
        | [] => Err E_EOF
-       | _ => if len bs <? n then Err E_UEOF else Ok (take n bs, drop n bs)
+       | _ => if shorter bs n then Err E_UEOF else Ok (take n bs, drop n bs)
        end.
 
 Definition rd_int (w : N) (bs : bytes) : res (N * bytes) :=
@@ -89,7 +89,7 @@ Definition rd_int (w : N) (bs : bytes) : res (N * bytes) :=
 
 (* the bound check added by the repair of D4: a length/count field may not
    claim more than the input still holds *)
-Definition need (n : N) (bs : bytes) : res unit := if len bs <? n then Err E_UEOF else Ok tt.
+Definition need (n : N) (bs : bytes) : res unit := if shorter bs n then Err E_UEOF else Ok tt.
 
 Definition dec_str (bs : bytes) : res (bytes * bytes) :=
   x <- rd_int 2 bs ;; _ <- need (fst x) (snd x) ;; rd (fst x) (snd x).
